@@ -48,6 +48,13 @@ PROP = [  # (subject fragment, property ids, key that used to be reported)
  ("file header of a rename or copy kept git's quotes around a quoted path", 'C14', "c14:header-text:renamed / renamed_changed / copied (path quoted by git on the rename/copy lines shown with its quotes)"),
  ("blame line with a one-character author name was not recognised", 'C17', "c17:separator / c17:row-count (blame line whose author is a single character passed through unrendered)"),
  ("hunk header that no hunk line follows was dropped", 'C02,C14', "c02:line-count:* on a diff cut right after a hunk header ('@@ ... @@' at end of input or before 'diff'/'commit'/'@@')"),
+ ("an enormous placeholder width or precision in a format string made delta panic or abort", 'C03', "panic|delta::format::pad|Formatting argument out of range|via:delta::handlers::blame::format_blame_line_number; panic|delta::features::line_numbers::format_line_number|capacity overflow; panic|delta::format::parse_line_number_format|Invalid width in format string: {nm:^N}; signal|6 (allocation failure with a width of 2^32)"),
+ ("hunk header was dropped when a merge conflict region starts on the first line of the hunk", 'C14', "c14:combined:hunk-headers (found from a sub-agent's note; combined sub-check added)"),
+ ("name of the common ancestor leaked from one merge conflict region into later ones", 'C10', "c10:concat:combined/h->combined/h (diff3-style region followed by a merge-style region; found from a sub-agent's note)"),
+ ("a line that is not valid UTF-8 was emptied under --max-line-length 0", 'C01', "c01: line with an invalid byte shown as an empty row under --max-line-length 0 (found from a sub-agent's note)"),
+ ("a '-Subproject commit' line without its '+' counterpart was dropped", 'C01', "c01: '-Subproject commit <hash>' of a deleted submodule / first hunk line '-Subproject commit <not a hash>' missing from the output (found from a sub-agent's note)"),
+ ("in 'diff -u' output an added line '++ x' inside a hunk was taken for a '+++ ' file header line", 'C14,C01', "c14:header-duplicated-or-early (plain diff, added line '++ x'; found from a sub-agent's note)"),
+ ("second of two 'diff -u' sections about the same two files got no file header", 'C14,C10', "c14:header-missing / c10:concat (plain diff, same file pair twice; found from a sub-agent's note)"),
  ("lines differing by a zero-width character were paired at --max-line-distance 0", 'C06', "c06:distance-0-pairing / :sbs ('<U+0308>key' paired with ' key   ' at distance 0; found by the thorough tier)"),
 ]
 log = subprocess.run(['git', '-C', '/repo', 'log', '--format=%H%x09%s', '--reverse'], stdout=subprocess.PIPE).stdout.decode().splitlines()
